@@ -82,8 +82,19 @@ def step (nd : Node) (ws : List String) : Node × String :=
     | _, _ => bad
   | ["metric", nb, ns, name] =>
     match nb.toNat?, ns.toNat?, name.toNat? with
-    | some nb, some ns, some name => let r := nd.genMetric cfg nb ns name; (r.1, showOut r.2)
+    | some nb, some ns, some name =>
+      -- with both limits off (the default) this is `genMetric` (Lemmas/C09FlushFault.lean genMetricLim_off)
+      let r := nd.genMetricLim cfg nb ns name
+      (r.1, match r.2 with
+        | .out o => showOut o
+        | .tooManyNamespaces => "err too-many-namespaces"
+        | .tooManyMetrics => "err too-many-metrics")
     | _, _, _ => bad
+  | ["limits", a, b] =>
+    -- models.SetDatabaseLimits: MaxNamespaces, MaxMetrics (0 = off)
+    match a.toNat?, b.toNat? with
+    | some a, some b => ({ nd with lim := { nd.lim with maxNamespaces := a, maxMetrics := b } }, "ok")
+    | _, _ => bad
   | ["getmetric", nb, ns, name] =>
     match nb.toNat?, ns.toNat?, name.toNat? with
     | some nb, some ns, some name => (nd, showOpt (nd.getMetric nb ns name))
@@ -168,6 +179,15 @@ def step (nd : Node) (ws : List String) : Node × String :=
         (nd.indexFlushPrefix sh k, if k < 4 then "err flush-failed" else "ok")
       else bad
     | none => bad
+  | ["iflushfault", sh, k] =>
+    -- the real Flush() of one shard during which step k fails at its kv commit (when it has something to write)
+    match sh.toNat?, k.toNat? with
+    | some sh, some k =>
+      if sh < nd.nShards ∧ k < 4 then
+        let r := nd.indexFlushFault cfg.indexFlushAborts currentIndexFlushSteps sh k
+        (r.1, if r.2 then "err flush-failed" else "ok")
+      else bad
+    | _, _ => bad
   | ["mflushcrash", k] =>
     match k.toNat? with
     | some k => if k ≤ 5 then ((nd.metaFlushPrefix k).recover, "ok") else bad
